@@ -5,6 +5,7 @@ import GeonumModel.Lemmas.GradeAngle
 import GeonumModel.Lemmas.Exact
 import GeonumModel.Lemmas.ExactAdd
 import GeonumModel.Props.C01
+import GeonumModel.Props.C06
 
 set_option linter.unusedSectionVars false
 set_option linter.unusedVariables false
@@ -238,12 +239,144 @@ theorem wedge_is_cross_real {e f : Geonum ℝ} (he : e.angle.Inv) (hf : f.angle.
   have := abs_sub_le (e.wedge f).mag |cross (cart e) (cart f)| |cross u v|
   linarith
 
+/-- an edge `p + q.negate` (the code's "vector from q to p") is a canonical number of non-negative length placed at the Cartesian
+    difference of the corners, to within the addition tolerance -/
+theorem edge_spec {p q : Geonum ℝ} (hp : p.angle.Inv) (hq : q.angle.Inv) (h0p : 0 ≤ p.mag) (h0q : 0 ≤ q.mag)
+    (hp1 : p.mag ≤ 10 ^ 100) (hq1 : q.mag ≤ 10 ^ 100) (hcb : p.angle.blade + (q.angle.blade + 2) ≤ 2 ^ 39) :
+    (p.add q.negate).angle.Inv ∧ 0 ≤ (p.add q.negate).mag ∧
+    ‖cart (p.add q.negate) - (cart p - cart q)‖ ≤ 1 / 10 ^ 10 * (1 + p.mag + q.mag) := by
+  have hn := negate_spec hq
+  have hninv : q.negate.angle.Inv := inv_of_spec hq hn.2
+  have hmp : p.MagDom := ⟨trivial, h0p, hp1⟩
+  have hmq : q.negate.MagDom := ⟨trivial, h0q, hq1⟩
+  have hcb' : p.angle.blade + q.negate.angle.blade ≤ 2 ^ 39 := by
+    show p.angle.blade + q.angle.negate.blade ≤ 2 ^ 39
+    rw [hn.1]; exact hcb
+  refine ⟨C01.add_angle_inv hp hninv hmp hmq hcb', (C01.add_mag_ok' hmp hmq hp hninv).2, ?_⟩
+  exact C06.sub_is_cartesian_difference hp hq h0p h0q (le_trans hcb (by norm_num))
+
+/-- the reference area: half the absolute planar cross products of the two triangles `P1 P2 P3` and `P1 P3 P4` -/
+noncomputable def areaRef (P1 P2 P3 P4 : ℂ) : ℝ := (|cross (P2 - P1) (P3 - P1)| + |cross (P3 - P1) (P4 - P1)|) / 2
+
+/-- (E) **the quadrilateral area helper is the two-triangle cross-product area of the Cartesian corners**, to within
+    `2e-9·(1+R)²` for corners of length at most `R` — the composed statement: both edges of each triangle through `+`/`negate`
+    (every branch of addition), the wedge of the edges, the halving and the final sum -/
+theorem area_is_cross_area_real {p1 p2 p3 p4 : Geonum ℝ} {R : ℝ} (hR : R ≤ 10 ^ 100)
+    (h1 : p1.angle.Inv) (h2 : p2.angle.Inv) (h3 : p3.angle.Inv) (h4 : p4.angle.Inv)
+    (m1 : 0 ≤ p1.mag ∧ p1.mag ≤ R) (m2 : 0 ≤ p2.mag ∧ p2.mag ≤ R) (m3 : 0 ≤ p3.mag ∧ p3.mag ≤ R) (m4 : 0 ≤ p4.mag ∧ p4.mag ≤ R)
+    (b2 : p2.angle.blade + (p1.angle.blade + 2) ≤ 2 ^ 39) (b3 : p3.angle.blade + (p1.angle.blade + 2) ≤ 2 ^ 39)
+    (b4 : p4.angle.blade + (p1.angle.blade + 2) ≤ 2 ^ 39) :
+    |Affine.areaQuadrilateral p1 p2 p3 p4 - areaRef (cart p1) (cart p2) (cart p3) (cart p4)| ≤ 2 / 10 ^ 9 * (1 + R) ^ 2 := by
+  have hR0 : 0 ≤ R := le_trans m1.1 m1.2
+  obtain ⟨X, hX⟩ : ∃ X, X = 1 + R := ⟨_, rfl⟩
+  have hX1 : 1 ≤ X := by rw [hX]; linarith
+  -- one edge: canonical, short, well placed
+  have edge : ∀ {p : Geonum ℝ}, p.angle.Inv → 0 ≤ p.mag ∧ p.mag ≤ R → p.angle.blade + (p1.angle.blade + 2) ≤ 2 ^ 39 →
+      (p.add p1.negate).angle.Inv ∧ 0 ≤ (p.add p1.negate).mag ∧ (p.add p1.negate).mag ≤ 3 * X ∧
+      ‖cart (p.add p1.negate) - (cart p - cart p1)‖ ≤ 2 / 10 ^ 10 * X ∧ ‖cart p - cart p1‖ ≤ 2 * X := by
+    intro p hp mp bp
+    obtain ⟨hi, h0, hpl⟩ := edge_spec hp h1 mp.1 m1.1 (le_trans mp.2 hR) (le_trans m1.2 hR) bp
+    have hnp : ‖cart p‖ = p.mag := by show ‖polar p.mag _‖ = _; rw [norm_polar, abs_of_nonneg mp.1]
+    have hn1 : ‖cart p1‖ = p1.mag := by show ‖polar p1.mag _‖ = _; rw [norm_polar, abs_of_nonneg m1.1]
+    have hu : ‖cart p - cart p1‖ ≤ 2 * X := by
+      have := norm_sub_le (cart p) (cart p1)
+      rw [hnp, hn1] at this; rw [hX]; linarith [mp.2, m1.2]
+    have hpl' : ‖cart (p.add p1.negate) - (cart p - cart p1)‖ ≤ 2 / 10 ^ 10 * X := by
+      refine le_trans hpl ?_
+      rw [hX]; nlinarith [mp.2, m1.2]
+    have hne : ‖cart (p.add p1.negate)‖ = (p.add p1.negate).mag := by
+      show ‖polar (p.add p1.negate).mag _‖ = _; rw [norm_polar, abs_of_nonneg h0]
+    have hm : (p.add p1.negate).mag ≤ 3 * X := by
+      have := norm_le_insert' (cart (p.add p1.negate)) (cart p - cart p1)
+      rw [hne] at this
+      nlinarith
+    exact ⟨hi, h0, hm, hpl', hu⟩
+  obtain ⟨i2, z2, l2, d2, u2⟩ := edge h2 m2 b2
+  obtain ⟨i3, z3, l3, d3, u3⟩ := edge h3 m3 b3
+  obtain ⟨i4, z4, l4, d4, u4⟩ := edge h4 m4 b4
+  -- one triangle
+  have tri : ∀ {e f : Geonum ℝ} {u v : ℂ}, e.angle.Inv → f.angle.Inv → 0 ≤ e.mag → 0 ≤ f.mag → e.mag ≤ 3 * X → f.mag ≤ 3 * X →
+      ‖cart e - u‖ ≤ 2 / 10 ^ 10 * X → ‖cart f - v‖ ≤ 2 / 10 ^ 10 * X → ‖u‖ ≤ 2 * X →
+      abs ((e.wedge f).mag - abs (cross u v)) ≤ 2 / 10 ^ 9 * (X * X) := by
+    intro e f u v he hf h0e h0f le lf de df hu
+    have h := wedge_is_cross_real he hf h0e h0f u v
+    have hX0 : 0 ≤ X := by linarith
+    have a1 : e.mag * f.mag ≤ 9 * (X * X) := by
+      calc e.mag * f.mag ≤ (3 * X) * (3 * X) := mul_le_mul le lf h0f (by linarith)
+        _ = 9 * (X * X) := by ring
+    have a2 : ‖cart e - u‖ * f.mag ≤ 6 / 10 ^ 10 * (X * X) := by
+      calc ‖cart e - u‖ * f.mag ≤ (2 / 10 ^ 10 * X) * (3 * X) := mul_le_mul de lf h0f (by positivity)
+        _ = 6 / 10 ^ 10 * (X * X) := by ring
+    have a3 : ‖u‖ * ‖cart f - v‖ ≤ 4 / 10 ^ 10 * (X * X) := by
+      calc ‖u‖ * ‖cart f - v‖ ≤ (2 * X) * (2 / 10 ^ 10 * X) := mul_le_mul hu df (norm_nonneg _) (by linarith)
+        _ = 4 / 10 ^ 10 * (X * X) := by ring
+    have a1' : e.mag * f.mag * (1 / 10 ^ 10 + 1 / 10 ^ 15) ≤ 9 * (X * X) * (1 / 10 ^ 10 + 1 / 10 ^ 15) :=
+      mul_le_mul_of_nonneg_right a1 (by positivity)
+    have hXX : 0 ≤ X * X := mul_nonneg hX0 hX0
+    nlinarith
+  have t1 := tri i2 i3 z2 z3 l2 l3 d2 d3 u2
+  have t2 := tri i3 i4 z3 z4 l3 l4 d3 d4 u3
+  have harea : Affine.areaQuadrilateral p1 p2 p3 p4 =
+      ((p2.add p1.negate).wedge (p3.add p1.negate)).mag / 2 + ((p3.add p1.negate).wedge (p4.add p1.negate)).mag / 2 := by
+    show fadd (fdiv _ two) (fdiv _ two) = _
+    rw [r_add, r_div, r_div, lit_real.2.2.1]
+  rw [harea, areaRef, ← hX]
+  rw [abs_le] at t1 t2 ⊢
+  have hsq : X ^ 2 = X * X := by ring
+  rw [hsq]
+  constructor <;> linarith [t1.1, t1.2, t2.1, t2.2]
+
+/-- the reference area is invariant under a common translation of the corners -/
+theorem areaRef_translate (z P1 P2 P3 P4 : ℂ) : areaRef (z + P1) (z + P2) (z + P3) (z + P4) = areaRef P1 P2 P3 P4 := by
+  unfold areaRef
+  rw [add_sub_add_left_eq_sub, add_sub_add_left_eq_sub, add_sub_add_left_eq_sub]
+
+/-- … and under a common rotation (multiplication by a unit complex number) -/
+theorem areaRef_rotate (w P1 P2 P3 P4 : ℂ) (hw : Complex.normSq w = 1) :
+    areaRef (w * P1) (w * P2) (w * P3) (w * P4) = areaRef P1 P2 P3 P4 := by
+  have hc : ∀ a b : ℂ, cross (w * a) (w * b) = Complex.normSq w * cross a b := by
+    intro a b; simp only [cross, Complex.mul_re, Complex.mul_im, Complex.normSq_apply]; ring
+  unfold areaRef
+  rw [← mul_sub, ← mul_sub, ← mul_sub, hc, hc, hw, one_mul, one_mul]
+
+/-- … and is the shoelace area `½|Σ (xᵢyᵢ₊₁ − xᵢ₊₁yᵢ)|` whenever the two triangles have the same orientation (in particular for
+    every convex quadrilateral with its corners listed in order) -/
+theorem areaRef_shoelace (P1 P2 P3 P4 : ℂ) (hconv : 0 ≤ cross (P2 - P1) (P3 - P1) * cross (P3 - P1) (P4 - P1)) :
+    areaRef P1 P2 P3 P4 =
+      |(P1.re * P2.im - P2.re * P1.im) + (P2.re * P3.im - P3.re * P2.im) + (P3.re * P4.im - P4.re * P3.im)
+        + (P4.re * P1.im - P1.re * P4.im)| / 2 := by
+  have hsum : (P1.re * P2.im - P2.re * P1.im) + (P2.re * P3.im - P3.re * P2.im) + (P3.re * P4.im - P4.re * P3.im)
+        + (P4.re * P1.im - P1.re * P4.im) = cross (P2 - P1) (P3 - P1) + cross (P3 - P1) (P4 - P1) := by
+    simp only [cross, Complex.sub_re, Complex.sub_im]; ring
+  unfold areaRef
+  rw [hsum, (abs_add_eq_add_abs_iff _ _).mpr]
+  rcases le_or_gt 0 (cross (P2 - P1) (P3 - P1)) with h | h
+  · rcases eq_or_lt_of_le h with h0 | hpos
+    · rcases le_total 0 (cross (P3 - P1) (P4 - P1)) with g | g
+      · exact Or.inl ⟨h, g⟩
+      · exact Or.inr ⟨by rw [← h0], g⟩
+    · exact Or.inl ⟨h, by by_contra hneg; have hneg' := not_le.mp hneg; nlinarith⟩
+  · exact Or.inr ⟨le_of_lt h, by by_contra hneg; have hneg' := not_le.mp hneg; nlinarith⟩
+
+/-- (E) **area invariance**: two quadrilaterals whose Cartesian corners differ by a common translation `z` and rotation `w`
+    (`|w| = 1`) have the same helper area to within twice the helper's tolerance -/
+theorem area_invariant_real {p1 p2 p3 p4 q1 q2 q3 q4 : Geonum ℝ} {R : ℝ} (hR : R ≤ 10 ^ 100) (z w : ℂ) (hw : Complex.normSq w = 1)
+    (c1 : cart q1 = z + w * cart p1) (c2 : cart q2 = z + w * cart p2) (c3 : cart q3 = z + w * cart p3) (c4 : cart q4 = z + w * cart p4)
+    (hp : |Affine.areaQuadrilateral p1 p2 p3 p4 - areaRef (cart p1) (cart p2) (cart p3) (cart p4)| ≤ 2 / 10 ^ 9 * (1 + R) ^ 2)
+    (hq : |Affine.areaQuadrilateral q1 q2 q3 q4 - areaRef (cart q1) (cart q2) (cart q3) (cart q4)| ≤ 2 / 10 ^ 9 * (1 + R) ^ 2) :
+    |Affine.areaQuadrilateral q1 q2 q3 q4 - Affine.areaQuadrilateral p1 p2 p3 p4| ≤ 4 / 10 ^ 9 * (1 + R) ^ 2 := by
+  rw [c1, c2, c3, c4, areaRef_translate, areaRef_rotate _ _ _ _ _ hw] at hq
+  rw [abs_le] at hp hq ⊢
+  constructor <;> linarith [hp.1, hp.2, hq.1, hq.2]
+
+/-- non-vacuity of `area_is_cross_area_real`: the four unit corners on the axes (a square of area 2) meet every hypothesis -/
+example : |Affine.areaQuadrilateral (⟨1, ⟨zero, 0⟩⟩ : Geonum ℝ) ⟨1, ⟨zero, 1⟩⟩ ⟨1, ⟨zero, 2⟩⟩ ⟨1, ⟨zero, 3⟩⟩
+      - areaRef (cart ⟨1, ⟨zero, 0⟩⟩) (cart ⟨1, ⟨zero, 1⟩⟩) (cart ⟨1, ⟨zero, 2⟩⟩) (cart ⟨1, ⟨zero, 3⟩⟩)| ≤ 2 / 10 ^ 9 * (1 + 1) ^ 2 :=
+  area_is_cross_area_real (R := 1) (by norm_num) (inv_zero 0) (inv_zero 1) (inv_zero 2) (inv_zero 3)
+    ⟨by norm_num, le_refl _⟩ ⟨by norm_num, le_refl _⟩ ⟨by norm_num, le_refl _⟩ ⟨by norm_num, le_refl _⟩
+    (by norm_num) (by norm_num) (by norm_num)
+
 end E
-
-/-! PARTIAL (not yet proved as one composed statement): the quadrilateral area as `½|u₁×u₂| + ½|u₂×u₄|` of the Cartesian corner
-    differences — it is `wedge_is_cross_real` applied to the two triangles with the edge placement bounds of
-    `C06.sub_is_cartesian_difference`; explored end-to-end by `oracle.C19.area` (shoelace, translation, rotation). -/
-
 
 
 example {F : Type} [FloatSpec F] : (⟨one, ⟨zero, 1⟩⟩ : Geonum F).angle.Inv := inv_zero 1
